@@ -312,8 +312,13 @@ def _names_of(case):
 def _fp_of(case):
     others = case.get('others')
     if others:
-        return _fitparams(case['layout'], _f(case['ns']), rng_vals=tuple(_fl(others)))
-    return _fitparams(case['layout'], _f(case['ns']))
+        r = _fitparams(case['layout'], _f(case['ns']), rng_vals=tuple(_fl(others)))
+    else:
+        r = _fitparams(case['layout'], _f(case['ns']))
+    if case.get('fp_cut') is not None:
+        # a fit-parameter array shorter than the parameter list (the entry of ns is missing)
+        return r[0], r[1], r[2][:int(case['fp_cut'])]
+    return r
 
 
 def impl_ts(case, tsobj=None):
@@ -325,7 +330,7 @@ def impl_ts(case, tsobj=None):
 
 def impl_tst(case, tsobj=None):
     pmm, idx, fp = _fp_of(case)
-    grads = np.array([0.125 * (i + 1) for i in range(len(fp))], dtype=np.float64)
+    grads = np.array([0.125 * (i + 1) for i in range(max(len(fp), idx + 1))], dtype=np.float64)
     grads[idx] = _f(case['a'])
     stub = _StubLLH(_f(case['b']), grads)
     kw = dict(pmm=pmm, log_lambda=np.float64(_f(case['ll'])), fitparam_values=fp, llhratio=stub)
@@ -354,6 +359,8 @@ def _check_ts(case, v, err):
 def o_ts(ctx, case):
     """documented definition: TS = 2 sgn(ns) logΛ, sgn(0) = +1 (exact: the operations involved are exact)"""
     v, err = impl_ts(case)
+    if case.get('fp_cut') is not None:
+        return None if err else 'test statistic read ns from a fit-parameter array that has no entry for it and returned %r' % v
     if case.get('tsname') is not None and case['tsname'] not in _names_of(case)[0]:
         return None if (err and err.startswith('KeyError')) else 'test statistic with unknown ns_param_name=%r gave %s instead of KeyError' % (
             case['tsname'], err or repr(v))
@@ -389,6 +396,8 @@ def _check_tst(case, v, err, calls, idx):
 def o_ts_taylor(ctx, case):
     """documented definition of the zero-ns Taylor variant (stub LLH ratio with prescribed a, b)"""
     r = impl_tst(case)
+    if case.get('fp_cut') is not None:
+        return None if r[1] else 'test statistic read ns from a fit-parameter array that has no entry for it and returned %r' % r[0]
     if case.get('tsname') is not None and case['tsname'] not in _names_of(case)[0]:
         return None if (r[1] and r[1].startswith('KeyError')) else 'test statistic with unknown ns_param_name=%r gave %s instead of KeyError' % (
             case['tsname'], r[1] or repr(r[0]))
@@ -681,6 +690,8 @@ def _corr_lh(ctx, cases):
     res = []
     for c, ans in zip(cases, ctx.driver('C12', reqs) if reqs else []):
         toks = [] if ans == '-' else ans.split(',')
+        for lab in _branches_hist('lh', c, toks):
+            ctx.count('branch:' + lab)
         out = impl_lh(c)
         d = None
         if len(toks) != len(out):
@@ -787,6 +798,8 @@ def _corr_mh(ctx, cases):
     reqs = [_mh_model_request(c, ps) for c, ps in zip(cases, partss)]
     res = []
     for c, ps, ans in zip(cases, partss, ctx.driver('C12', reqs) if reqs else []):
+        for lab in _branches_hist('mh', c, [] if ans == '-' else ans.split(',')):
+            ctx.count('branch:' + lab)
         toks = iter([] if ans == '-' else ans.split(','))
         out = iter(impl_mh(c))
         scale = sum(abs(x) for p_ in ps for x in p_['X']) + sum(1.0 for p_ in ps) + 1.0
@@ -1041,6 +1054,37 @@ def _chi2_sample(seed, n):
     return np.where(rs.uniform(size=n) < 0.5, 0.0, rs.chisquare(1, size=n))
 
 
+def impl_pg(case):
+    """the real calculate_pval_from_gammafit_to_trials; the parameters iminuit found are observed by wrapping the
+    module-level `minimize` (passed through unchanged) -> ('ok', p, sf(eta), sf(thr)) | ('err', tag) | ('unobservable',)"""
+    import skyllh.core.utils.analysis as ua
+    from scipy.stats import gamma
+    ts = _chi2_sample(case['seed'], case['n'])
+    rec = []
+    orig = ua.minimize
+
+    def wrap(*a, **k):
+        r = orig(*a, **k)
+        rec.append([float(v) for v in r.x])
+        return r
+    ua.minimize = wrap
+    try:
+        with warnings.catch_warnings():
+            warnings.simplefilter('ignore')
+            with np.errstate(all='ignore'):
+                p = ua.calculate_pval_from_gammafit_to_trials(ts, _f(case['thr']), eta=_f(case['eta']), n_max=int(case['n_max']))[0]
+    except ValueError:
+        return ('err', 'V')
+    except ZeroDivisionError:
+        return ('err', 'Z')
+    finally:
+        ua.minimize = orig
+    if len(rec) != 1:
+        return ('unobservable',)
+    a, sc = rec[0]
+    return ('ok', float(p), float(gamma.sf(_f(case['eta']), a=a, scale=sc)), float(gamma.sf(_f(case['thr']), a=a, scale=sc)))
+
+
 def o_gamma_real(ctx, case):
     """the mixed helper with the REAL gamma fit (iminuit) on a chi2-like sample generated from case['seed']: every value
     lies in [0,1]; ValueError exactly for thresholds in [switch, eta) (documented for the gamma fit); and the p-value is
@@ -1142,8 +1186,8 @@ def o_poly(ctx, case):
         must_line = (a > 0 or D < 0) and not near
         may_line = a > 0 or D < 0 or near
     if not math.isfinite(v):
-        if (must_line and line[0] == 0) or (not may_line and curve[0] == 0):
-            return None                     # flat fitted curve: explicitly exempt
+        if (may_line and line[0] == 0) or (not must_line and curve is not None and curve[0] == 0):
+            return None                     # a fitted curve the policy may use is exactly flat: explicitly exempt
         if deg == 2 and not (a > 0) and D < 0:
             return ('polynomial_fit(deg=2, p_thr=%r) returned %r for a monotone noisy curve: the fitted parabola %r has its apex %r '
                     'below p_thr, no fall-back is taken and no signal strength is returned (data x=%r, y=%r)' % (
@@ -1413,7 +1457,7 @@ def corr_request(case):
         pmm, idx, fp = _fp_of(case)
         if k == 'ts':
             return 'tsc %s %s %s %s' % (_names(names), name, flist(fp), f2b(_f(case['ll'])))
-        grads = [0.125 * (i + 1) for i in range(len(fp))]
+        grads = [0.125 * (i + 1) for i in range(max(len(fp), idx + 1))]
         grads[idx] = _f(case['a'])
         return 'tstc %s %s %s %s %s %s' % (_names(names), name, flist(fp), f2b(_f(case['ll'])), flist(grads), f2b(_f(case['b'])))
     if k == 'ts':
@@ -1423,6 +1467,12 @@ def corr_request(case):
     if k == 'pv':
         op = 0 if case.get('op') is None else case['op']
         return 'pv %d %s %s' % (op, flist(_fl(case['tsv'])), f2b(_f(case['thr'])))
+    if k == 'pg':
+        r = impl_pg(case)
+        case['_impl'] = r
+        sfe, sft = (r[2], r[3]) if r[0] == 'ok' else (1.0, 1.0)
+        return 'pg %s %d %s %s %s %s' % (flist(_chi2_sample(case['seed'], case['n'])), int(case['n_max']), f2b(_f(case['thr'])),
+                                         f2b(_f(case['eta'])), f2b(sfe), f2b(sft))
     if k == 'mix':
         op = 1 if case.get('op') is None else case['op']
         sw = 3.0 if case.get('switch') is None else _f(case['switch'])
@@ -1482,6 +1532,17 @@ def corr_compare(case, model):
         kk, n, p, s = int(t[1]), int(t[2]), b2f(t[3]), b2f(t[4])
         if r[0] != 'ok' or Fraction(r[1]) != Fraction(kk / n) or not _same(r[1], p) or not _close(r[2], s, 1e-12 * abs(s) + 1e-300):
             return 'pv: implementation %r, model k=%d n=%d p=%r sigma=%r' % (r, kk, n, p, s)
+        return None
+    if k == 'pg':
+        r = case.pop('_impl', None) or impl_pg(case)
+        t = model.split(' ')
+        if r[0] == 'unobservable':
+            return None
+        if t[0] == 'err':
+            return None if r == ('err', t[1]) else 'pg: implementation %r, model %s' % (r, model)
+        m = b2f(t[1])
+        if r[0] != 'ok' or not _close(r[1], m, 1e-12 * abs(m)):
+            return 'pg: implementation %r, model alpha/sf(eta)*sf(thr) = %r' % (r, m)
         return None
     if k == 'mix':
         r = impl_mix(case)
@@ -1543,6 +1604,119 @@ def corr_compare(case, model):
         r = impl_fwd(case)
         return None if r == model else 'fwd: interpreter %r, model %r' % (r, model)
     raise ValueError(k)
+
+
+# ------------------------------------------------------------------------------------------
+# branch coverage of the modelled functions (which branch of the model a correspondence case went through)
+
+ALL_BRANCHES = [
+    'gflpIdx:found', 'gflpIdx:keyError', 'tsCall:indexError', 'sgnNs:ns=0', 'npSign:ns<0', 'npSign:ns>0',
+    'tsTaylor:ns=0', 'tsTaylor:ns!=0', 'tsApex?:flat(a=0,b=0)', 'tsApex?:notfinite(a!=0,b=0)', 'tsApex?:quotient',
+    'isStable:true', 'isStable:false', 'LlhSt.grad2:no-cache', 'LlhSt.grad2:cache',
+    'MultiSt.grad2:noWeights', 'MultiSt.grad2:shape', 'MultiSt.grad2:child-runtime', 'MultiSt.grad2:ok',
+    'ProfSt.grad2:valueError', 'ProfSt.grad2:delegate', 'ProfSt.llr:no-logL0', 'ProfSt.llr:value', 'tsTaylorOnProf:noLogL0',
+    'pvalCounts:other-operator', 'pvalCounts:greater:empty', 'pvalCounts:greater:ok', 'pvalCounts:greater_equal:empty',
+    'pvalCounts:greater_equal:ok', 'pvalMixed:trials', 'pvalMixed:gamma:eta-default', 'pvalMixed:gamma:eta-given',
+    'pGamma:valueError', 'pGamma:zeroDivision', 'pGamma:ok', 'truncSample:truncated', 'truncSample:whole',
+    'polySwitch:opens-upwards', 'polySwitch:never-reaches-p_thr', 'polySwitch:no', 'polyFit:line:ok', 'polyFit:line:notFinite',
+    'polyFit:parabola:ok', 'polyFit:parabola:notFinite', 'polyFit:indexError', 'polyFit:valueError',
+    'pyBind:ok', 'pyBind:unexpectedKeyword', 'pyBind:multipleValues', 'pyBind:tooManyPositional', 'pyBind:missing',
+]
+# branches of the model that the real code cannot reach (kept in the model for totality; not an untied code path)
+UNREACHABLE_BY_CONSTRUCTION = {
+    'polyFit:indexError': 'np.polyfit always returns deg+1 coefficients',
+    'MultiSt.grad2:shape': 'the weight-factor service and the list of LLH ratios are built from the same dataset list',
+}
+
+
+def _branches(case, model):
+    """labels of the model branches a correspondence case went through (from the case and the model's answer)"""
+    k = case['kind']
+    out = []
+    if k in ('ts', 'tst') and 'layout' in case:
+        if model == 'K':
+            return ['gflpIdx:keyError']
+        if model == 'I':
+            return ['gflpIdx:found', 'tsCall:indexError']
+        out.append('gflpIdx:found')
+        ns = _f(case['ns'])
+        if k == 'ts':
+            out.append('sgnNs:ns=0' if ns == 0 else 'npSign:ns<0' if ns < 0 else 'npSign:ns>0')
+        else:
+            out.append('tsTaylor:ns=0' if ns == 0 else 'tsTaylor:ns!=0')
+            if ns == 0:
+                a, b = _f(case['a']), _f(case['b'])
+                out.append('tsApex?:flat(a=0,b=0)' if (a == 0 and b == 0) else 'tsApex?:notfinite(a!=0,b=0)' if b == 0 else 'tsApex?:quotient')
+            else:
+                out.append('npSign:ns<0' if ns < 0 else 'npSign:ns>0')
+    elif k == 'pv':
+        op = 0 if case.get('op') is None else case['op']
+        nm = {0: 'greater', 1: 'greater_equal'}.get(op)
+        out.append('pvalCounts:other-operator' if nm is None else 'pvalCounts:%s:%s' % (nm, 'empty' if not case['tsv'] else 'ok'))
+    elif k == 'mix':
+        out.append('pvalMixed:trials' if model.startswith('T') else
+                   'pvalMixed:gamma:eta-default' if case.get('eta') is None else 'pvalMixed:gamma:eta-given')
+    elif k == 'pg':
+        out.append({'ok': 'pGamma:ok', 'err V': 'pGamma:valueError', 'err Z': 'pGamma:zeroDivision'}[model if model.startswith('err') else 'ok'])
+        out.append('truncSample:truncated' if int(case['n_max']) < int(case['n']) else 'truncSample:whole')
+    elif k == 'poly':
+        t = model.split(' ')
+        if t[0] == 'err':
+            out.append({'V': 'polyFit:valueError', 'I': 'polyFit:indexError', 'N': 'polyFit:notFinite?'}[t[1]])
+        try:
+            x, y, w = _fl(case['x']), _fl(case['y']), _fl(case['w'])
+            sw = 'polySwitch:no'
+            if case['deg'] == 2:
+                a2, b2, c2 = _polyfit(x, y, 2, w)
+                sw = ('polySwitch:opens-upwards' if a2 > 0 else 'polySwitch:never-reaches-p_thr'
+                      if b2 * b2 - 4 * a2 * (c2 - _f(case['pthr'])) < 0 else 'polySwitch:no')
+            if case['deg'] in (1, 2):
+                out.append(sw)
+                line = case['deg'] == 1 or sw != 'polySwitch:no'
+                out = [o for o in out if o != 'polyFit:notFinite?']
+                out.append('polyFit:%s:%s' % ('line' if line else 'parabola', 'notFinite' if t[0] == 'err' and t[1] == 'N' else 'ok'))
+        except Exception:  # noqa
+            pass
+    elif k == 'bind':
+        out.append('pyBind:' + ('ok' if model == 'ok' else {'unexp': 'unexpectedKeyword', 'multi': 'multipleValues', 'pos': 'tooManyPositional',
+                                                                'miss': 'missing'}[model.split(' ')[1].split(':')[0]]))
+    return out
+
+
+def _branches_hist(kind, case, toks):
+    """object histories: labels from the ops and the model's output tokens"""
+    out = []
+    it = iter(toks)
+    if kind == 'lh':
+        N = case['N']
+        for op in case['ops']:
+            if op[0] == 'e':
+                for rr in _fl(case['R']):
+                    out.append('isStable:true' if _f(op[1]) * (rr - 1.) / N > opa_value() - 1 else 'isStable:false')
+            elif op[0] == 'g':
+                out.append('LlhSt.grad2:no-cache' if next(it, None) == 'R' else 'LlhSt.grad2:cache')
+            elif op[0] in 'tu':
+                t = next(it, None)
+                out += ['LlhSt.grad2:cache', 'tsApex?:flat(a=0,b=0)' if t == '0' else 'tsApex?:quotient']
+        return out
+    prof = case['obj'] == 'profile'
+    for op in case['ops']:
+        k = op[0]
+        if k == 'E':
+            lt = next(it, None)
+            next(it, None)
+            if prof:
+                out.append('ProfSt.llr:no-logL0' if lt == 'N' else 'ProfSt.llr:value')
+        elif k == 'g':
+            t = next(it, None)
+            if prof:
+                out.append('ProfSt.grad2:valueError' if t == 'V' else 'ProfSt.grad2:delegate')
+            if t != 'V':
+                out.append({'W': 'MultiSt.grad2:noWeights', 'S': 'MultiSt.grad2:shape', 'R': 'MultiSt.grad2:child-runtime'}.get(t, 'MultiSt.grad2:ok'))
+        elif k in 'tu':
+            t = next(it, None)
+            out.append('tsTaylorOnProf:noLogL0' if t == 'N' else 'MultiSt.grad2:ok')
+    return out
 
 
 def o_corr(ctx, case):
@@ -1769,6 +1943,8 @@ def gen_curve(rng):
     noise = rng.choice([1e-3, 1e-2, 3e-2])
     ys = [min(0.99, max(0.01, y + rng.gauss(0, noise))) for y in ys]
     ws = [1.0 / math.sqrt(y * (1 - y) / ntr) for y in ys]
+    if rng.random() < 0.02:
+        ys = [0.0] * n                     # no trial above the threshold anywhere: an exactly flat fitted curve
     if rng.random() < 0.3:
         perm = list(range(n))
         rng.shuffle(perm)
@@ -1961,9 +2137,13 @@ def run(ctx):
         others = [rng.choice([2.5, -2.5, 0.0, 7.0, -3.0]) for _ in range(4)]
         tsname = rng.choice(['nsignal', 'gamma_', 'NS']) if rng.random() < 0.04 else None     # no such floating parameter
         c = {'kind': 'ts', 'layout': layout, 'ns': ns, 'll': ll, 'others': others}
+        fp_cut = _pmm(layout)[1] if (not tsname and rng.random() < 0.03) else None
         if tsname:
             c['tsname'] = tsname
             ctx.count('ts:unknown-ns_param_name')
+        if fp_cut is not None:
+            c['fp_cut'] = fp_cut
+            ctx.count('ts:fit-parameter-array-too-short')
         cases.append(c)
         ocases.append(('ts', c))
         a = rng.choice([0.0, 0.0, -0.3, 0.7, rng.gauss(0, 2), 1e-8])
@@ -1972,6 +2152,8 @@ def run(ctx):
              'pass_grads': rng.random() < 0.7}
         if tsname:
             c['tsname'] = tsname
+        if fp_cut is not None:
+            c['fp_cut'] = fp_cut
         ctx.count('tst:b%s' % ('=0,a=0' if (b == 0 and a == 0) else '=0,a!=0' if b == 0 else '<0' if b < 0 else '>0'))
         cases.append(c)
         ocases.append(('ts_taylor', c))
@@ -2036,6 +2218,16 @@ def run(ctx):
         c = {'seed': rng.randrange(10 ** 6), 'n': rng.choice([2000, 5000]), 'switch': sw, 'eta': eta, 'thrs': thrs}
         ctx.count('gamma_real:eta-%s' % ('default' if eta is None else ('above-switch' if eta > s0 else 'below-switch')))
         ocases.append(('gamma_real', c))
+    # ---- the gamma-fit branch against pGamma / truncSample (fitted parameters observed, survival function from scipy)
+    for _ in range(ctx.n(6, 60)):
+        eta = rng.choice([3.0, 2.0, 4.0])
+        n = rng.choice([2000, 5000, 5000, 0])
+        c = {'kind': 'pg', 'seed': rng.randrange(10 ** 6), 'n': n, 'eta': eta,
+             'thr': rng.choice([eta, eta + 0.5, eta + 3.0, eta - 0.25, float(np.nextafter(eta, 0))]),
+             'n_max': rng.choice([500000, n, n - 1, 1000, 300])}
+        ctx.count('pg:%s' % ('thr<eta' if c['thr'] < eta else 'thr>=eta'))
+        ctx.count('pg:%s' % ('sample-truncated-to-n_max' if c['n_max'] < n else 'whole-sample'))
+        cases.append(c)
     # ---- polynomial inversion
     for _ in range(ctx.n(150, 8000)):
         xs, ys, ws = gen_curve(rng)
@@ -2077,8 +2269,11 @@ def run(ctx):
     models = ctx.driver('C12', reqs)
     suspicious = []
     for c, m in zip(cases, models):
-        ctx.case(nontrivial=True, key=c, desc=c if ctx.evaluations % 389 == 0 else None)
+        ctx.case(nontrivial=True, key={k_: v_ for k_, v_ in c.items() if k_ != '_impl'},
+                 desc={k_: v_ for k_, v_ in c.items() if k_ != '_impl'} if ctx.evaluations % 389 == 0 else None)
         ctx.count('corr:' + c['kind'])
+        for lab in _branches(c, m):
+            ctx.count('branch:' + lab)
         d = corr_compare(c, m)
         if d:
             suspicious.append((c, m, d))
@@ -2132,6 +2327,12 @@ def run(ctx):
                           kind='correspondence', relation='C12 correspondence ' + d.split(':')[0], model_output=m,
                           signature='C12/corr/' + d.split(':')[0], no_failing_input=True)
     ctx.extra['correspondence_disagreements'] = len(suspicious)
+    zero = [b_ for b_ in ALL_BRANCHES if ctx.counters.get('branch:' + b_, 0) == 0]
+    ctx.extra['model_branches'] = {'total': len(ALL_BRANCHES), 'hit': len(ALL_BRANCHES) - len(zero),
+                                   'zero_hit': [b_ for b_ in zero if b_ not in UNREACHABLE_BY_CONSTRUCTION],
+                                   'unreachable_by_construction': {b_: UNREACHABLE_BY_CONSTRUCTION[b_] for b_ in zero if b_ in UNREACHABLE_BY_CONSTRUCTION}}
+    if ctx.extra['model_branches']['zero_hit']:
+        ctx.note('model branches without a correspondence case in this run: ' + ', '.join(ctx.extra['model_branches']['zero_hit']))
 
 
 MANIFEST = dict(
